@@ -16,15 +16,31 @@
     src/macro_hooks.rs:707-719     FirstDefined (the call-site `when` REPLACES the runtime filter)
     src/macro_hooks.rs:754-801     __private_emit / __private_emit_event
 
+    src/level.rs:254-264,364-386   MinLevelFilter / MinLevelPathMap as leaf filters (through Model/Level.lean)
+    src/kind.rs:136-170            KindFilter / is_span_filter / is_metric_filter as leaf filters
+    macros/src/{lib,emit,build,span,props}.rs + src/macro_hooks.rs:803-872  the level macros
+                                   (`debug!`…`error!`, `*_evt!`, `emit!(evt: …)`, `#[*_span]`, `new_*_span!`)
+
   Everything observable is a list of `Obs` in call order: which leaf filter was asked about which event,
-  which leaf emitter received which event. Import-free (linked into the driver executable).
+  which leaf emitter received which event. Imports only the (Std-only) level and kind models it evaluates
+  the library leaf filters with (linked into the driver executable).
 -/
+import EmitModel.Model.KindText
+
 namespace EmitModel.Pipeline
+open EmitModel.Level (Level)
+open EmitModel.KindText (Kind)
 
 /-- Property values. Only identity matters for C01 (what was delivered is what was built). -/
 inductive Val where
   | int (i : Int)
   | str (s : String)
+  /-- a captured `emit::Level` (downcasts to `Level`; the level macros attach one under `lvl`) -/
+  | lvl (l : Level)
+  /-- a captured `emit::Kind` (`Span::to_event` puts one under `evt_kind`) -/
+  | kind (k : Kind)
+  /-- any other `Display`-captured value (trace and span ids), identified by its text -/
+  | disp (s : String)
   deriving DecidableEq, Repr, Inhabited
 
 /-- core/src/extent.rs: a point in time or a range; timestamps are nanoseconds since the epoch. -/
@@ -261,5 +277,138 @@ def direct (ρ : Nat → Evt → Bool) (μ : Nat → Evt → Evt) (rt : Rt) (x :
 /-- Flushing a runtime (`Emitter for Runtime`, `Init::blocking_flush`): defers to the emitter. -/
 def Rt.flush (φ : Nat → Nat → Bool) (rt : Rt) (t : Nat) : Bool × List (Nat × Nat) :=
   rt.emitter.flush φ t
+
+/-! ### Library leaf filters: `MinLevelFilter`, `MinLevelPathMap` (src/level.rs), `KindFilter` (src/kind.rs)
+
+  In a filter tree these are leaves like any user filter (`Flt.leaf i`); their verdict `ρ i` is not arbitrary
+  but the function below of the event they are shown. -/
+
+/-- What `Props::pull::<Level, _>` is handed for a pipeline value: a captured `Level` downcasts, a string is
+    parsed, everything else is formatted with `Display` and parsed (src/level.rs:205-212). -/
+def Val.toLvlVal : Val → EmitModel.Level.LvlVal
+  | .int i => .int i
+  | .str s => .text s
+  | .lvl l => .typed l
+  | .kind k => .display k.display
+  | .disp s => .display s
+
+def lvlProps (props : List (String × Val)) : List (String × EmitModel.Level.LvlVal) :=
+  props.map fun kv => (kv.1, kv.2.toLvlVal)
+
+/-- `MinLevelFilter::matches` (src/level.rs:254-264) on a pipeline event. -/
+def minLevelLeaf (f : EmitModel.Level.MinF) (x : Evt) : Bool := f.matches (lvlProps x.props)
+
+/-- `MinLevelPathMap::matches` (src/level.rs:364-386) on a pipeline event: the module selects the filter. -/
+def pathMapLeaf (regs : List EmitModel.Level.Reg) (x : Evt) : Bool :=
+  EmitModel.Level.pathMapMatches regs x.mdl (lvlProps x.props)
+
+/-- `FromValue for Kind` (src/kind.rs:88-95): downcast, else parse the string / the `Display` text. -/
+def Val.toKind : Val → Option Kind
+  | .kind k => some k
+  | .str s => EmitModel.KindText.parseKind s
+  | .int i => EmitModel.KindText.parseKind (toString i)
+  | .lvl l => EmitModel.KindText.parseKind l.display
+  | .disp s => EmitModel.KindText.parseKind s
+
+/-- first-wins lookup (the default `Props::get`) -/
+def lookupFirst (k : String) : List (String × Val) → Option Val
+  | [] => none
+  | (k', v) :: rest => if k' == k then some v else lookupFirst k rest
+
+/-- `KindFilter::matches` (src/kind.rs:165-169): `props.pull::<Kind, _>("evt_kind") == Some(self.0)`;
+    `is_span_filter()` = `KindFilter::new(Kind::Span)`, `is_metric_filter()` = `KindFilter::new(Kind::Metric)`. -/
+def kindLeaf (k : Kind) (x : Evt) : Bool := (lookupFirst "evt_kind" x.props).bind Val.toKind == some k
+
+/-! ### The level macros (macros/src/lib.rs)
+
+  `emit!` / `debug!` / `info!` / `warn!` / `error!` (:679-750), `evt!` / `debug_evt!` … `error_evt!` (:262-340),
+  `#[span]` / `#[debug_span]` … `#[error_span]` (:380-480) and `new_span!` / `new_debug_span!` … (:520-590) differ
+  only in the `level: Option<TokenStream>` they hand to the shared expansion. -/
+
+inductive LevelMacro where
+  | plain | debug | info | warn | error
+  deriving DecidableEq, Repr, Inhabited
+
+/-- `level: None` for the plain forms, `Some(quote!(emit::Level::X))` for the `x` forms. -/
+def LevelMacro.level : LevelMacro → Option Level
+  | .plain => none
+  | .debug => some .debug
+  | .info => some .info
+  | .warn => some .warn
+  | .error => some .error
+
+/-- macros/src/props.rs:62-85: call-site properties are kept in a `BTreeMap<String, _>` and enumerated in key
+    order; a new key is enumerated at its sorted position (duplicate keys are a compile error). -/
+def insertProp (k : String) (v : Val) : List (String × Val) → List (String × Val)
+  | [] => [(k, v)]
+  | (k', v') :: rest => if k < k' then (k, v) :: (k', v') :: rest else (k', v') :: insertProp k v rest
+
+/-- macros/src/props.rs:237-248 `push_evt_props`: the level is pushed as the call-site property `lvl`, captured
+    as a typed `emit::Level`. `props` are the user's call-site properties in key order. -/
+def macroProps (m : LevelMacro) (props : List (String × Val)) : List (String × Val) :=
+  match m.level with
+  | none => props
+  | some l => insertProp "lvl" (.lvl l) props
+
+/-- `emit::<m>!(rt, [when: w,] mdl, extent, props: base, "tpl", k: v…)` → `__private_emit`
+    (macros/src/emit.rs:142-160). -/
+def macroEmit (ρ : Nat → Evt → Bool) (μ : Nat → Evt → Evt) (rt : Rt) (callSite : Option Flt) (m : LevelMacro)
+    (mdl tpl : String) (extent : Option Extent) (base props : List (String × Val)) : List Obs :=
+  hookEmit ρ μ rt callSite mdl tpl extent base (macroProps m props)
+
+/-- `emit::<m>_evt!(mdl, extent, props: base, "tpl", k: v…)` → `__private_evt` (macros/src/build.rs:175-199,
+    src/macro_hooks.rs:803-817): an event value; nothing is emitted. -/
+def macroEvt (m : LevelMacro) (mdl tpl : String) (extent : Option Extent) (base props : List (String × Val)) : Evt :=
+  { mdl := mdl, tpl := tpl, extent := extent, props := macroProps m props ++ base }
+
+/-- `emit::<m>!(rt, [when: w,] evt: e [, "tpl", k: v…])` → `__private_emit_event` (macros/src/emit.rs:121-140):
+    the outer macro's own level and properties go in front of the event's. -/
+def macroEmitEvt (ρ : Nat → Evt → Bool) (μ : Nat → Evt → Evt) (rt : Rt) (callSite : Option Flt) (m : LevelMacro)
+    (e : Evt) (tpl : Option String) (props : List (String × Val)) : List Obs :=
+  hookEmitEvent ρ μ rt callSite e tpl (macroProps m props)
+
+/-! ### The span macros: the level is shown to the filter on the span-start event -/
+
+def lvlProp (m : LevelMacro) : List (String × Val) :=
+  match m.level with
+  | none => []
+  | some l => [("lvl", .lvl l)]
+
+/-- The event `SpanGuard::new` (src/span.rs:923-940) presents to `__PrivateBeginSpanFilter`
+    (src/macro_hooks.rs:853-872): a `Span` without extent carrying `evt_kind`, `span_name`, the span's own
+    (empty) properties, the call-site `ctxt_props`, the generated ids, the current ambient properties — and, put
+    BEHIND all of them by the begin-span filter, the macro's level as `lvl`. -/
+def spanStartEvt (m : LevelMacro) (mdl name : String) (ctxtProps ids amb : List (String × Val)) : Evt :=
+  { mdl := mdl, tpl := "{span_name} started", extent := none
+    props := [("evt_kind", .kind .span), ("span_name", .str name)] ++ ctxtProps ++ ids ++ amb ++ lvlProp m }
+
+/-- The verdict that enables or disables the span: the call-site `when` if given, else the runtime's filter
+    (`FirstDefined`), on the start event. -/
+def spanEnabled (ρ : Nat → Evt → Bool) (rt : Rt) (callSite : Option Flt) (m : LevelMacro) (mdl name : String)
+    (ctxtProps ids : List (String × Val)) : Bool × List Obs :=
+  firstDefined ρ callSite rt.filter (spanStartEvt m mdl name ctxtProps ids rt.amb)
+
+/-- The ambient properties inside the span's frame: `Frame::push(ctxt, ctxt_props.and_props(span_ctxt))` when
+    enabled, `Frame::disabled` (nothing pushed) otherwise (src/span.rs:963-971). -/
+def spanInner (enabled : Bool) (ctxtProps ids amb : List (String × Val)) : List (String × Val) :=
+  if enabled then ctxtProps ++ ids ++ amb else amb
+
+/-- The completion event: `__PrivateCompleteSpan::complete` (src/macro_hooks.rs:896-920) →
+    `completion::Default` with the macro's template and level (src/span.rs:1156-1226) →
+    `emit_core::emit(emitter, Empty, ctxt, Empty, …)`: level first, then `evt_kind`, `span_name`, then the ambient
+    properties of the frame it completes in; the extent is the timer's two clock readings, if there are any. -/
+def spanDoneEvt (m : LevelMacro) (mdl name : String) (clk : Option Nat) (inner : List (String × Val)) : Evt :=
+  { mdl := mdl, tpl := name, extent := clk.map fun t => Extent.range t t
+    props := lvlProp m ++ [("evt_kind", .kind .span), ("span_name", .str name)] ++ inner }
+
+/-- A whole macro-instrumented span whose body sends `body` straight through the runtime's emitter with the
+    ambient context (`emit_core::emit(rt.emitter(), Empty, rt.ctxt(), Empty, body)`), so that the frame's
+    properties become visible. The span completes when the body ends, inside the frame. -/
+def spanMacro (ρ : Nat → Evt → Bool) (μ : Nat → Evt → Evt) (rt : Rt) (callSite : Option Flt) (m : LevelMacro)
+    (mdl name : String) (ctxtProps ids : List (String × Val)) (body : Evt) : List Obs :=
+  let r := spanEnabled ρ rt callSite m mdl name ctxtProps ids
+  let inner := spanInner r.1 ctxtProps ids rt.amb
+  r.2 ++ rt.emitter.run ρ μ { body with props := body.props ++ inner } ++
+    (if r.1 then rt.emitter.run ρ μ (spanDoneEvt m mdl name rt.clk inner) else [])
 
 end EmitModel.Pipeline
